@@ -5,6 +5,7 @@ CONSTANTS
   Cap = 16
   Kinds <- TrKinds
   Script <- TrScript
+  Readers <- TrReaders
   GenK = 0
 POSTCONDITION TraceAccepted
 CHECK_DEADLOCK FALSE
